@@ -167,6 +167,22 @@ mod imp {
                 emit_lex(&format!("pair:{}:{}:ctx{}:sep{}", KINDS[a].0, KINDS[b].0, c, s), &ps, r);
             }
         }}
+        // the else-lookahead: every statement-ending kind, every mixture of blanks / newlines / comments, then `else`
+        let enders: Vec<usize> = (0..nk).filter(|&k| ["Identifier", "Int", "Float", "String", "FmtString", "True", "False", "Null", "Break", "Continue",
+            "Return", "RParen", "RBracket", "RBrace", "Star", "PlusPlus", "MinusMinus"].contains(&KINDS[k].0)).collect();
+        let look: Vec<Vec<P>> = vec![
+            vec![P::NL], vec![P::NL, P::Blank, P::NL], vec![P::NL, P::LineComment, P::NL], vec![P::LineComment, P::NL, P::Blank],
+            vec![P::NL, P::BlockComment], vec![P::NL, P::BlockComment, P::NL], vec![P::BlockComment, P::NL, P::BlockComment, P::Blank],
+            vec![P::NL, P::Blank, P::BlockComment, P::BlockComment, P::NL, P::LineComment, P::NL, P::Blank],
+            vec![P::NL, P::LineComment, P::NL, P::LineComment, P::NL, P::BlockComment, P::Blank], vec![P::BlockComment],
+            vec![P::NL, P::BlockComment, P::LineComment, P::NL], vec![P::Blank, P::NL, P::Blank, P::BlockComment, P::Blank, P::NL],
+        ];
+        for &a in &enders { for (li, l) in look.iter().enumerate() { for tail in ["Else", "Identifier", "LBrace"] {
+            let mut ps = vec![P::Tok(a)];
+            ps.extend(l.iter().cloned());
+            ps.push(t(tail)); ps.push(P::Blank); ps.push(t("LBrace")); ps.push(t("RBrace"));
+            emit_lex(&format!("look:{}:{}:{}", KINDS[a].0, li, tail), &ps, r);
+        }}}
         // statement-like templates joined by random separators
         let stmts: Vec<Vec<P>> = vec![
             vec![t("Let"), P::Blank, t("Identifier"), P::Blank, t("Eq"), P::Blank, t("Int")],
@@ -379,7 +395,7 @@ mod imp {
         fn stmt(&mut self) -> S {
             let top = self.depth == 0;
             loop {
-                match self.r.below(17) {
+                match self.r.below(18) {
                     0 | 1 => { let m = self.r.chance(1, 2); let x = self.name("v");
                                let e = if self.r.chance(1, 4) && !self.in_fn { self.if_expr(1) } else { self.int_expr(2) };
                                self.ints.push(x.clone()); if m { self.muts.push(x.clone()); } return S::Let(m, x, e); }
@@ -414,6 +430,7 @@ mod imp {
                                self.ints = ps.clone(); self.muts.clear(); self.vecs.clear(); self.lams.clear(); self.in_loop = false; self.in_fn = true;
                                self.depth += 1;
                                let mut body: Vec<S> = (0..self.r.range_i64(0, 3)).map(|_| self.stmt()).collect();
+                               if self.r.chance(2, 3) { body.insert(0, S::Print(true, E::Var(ps[0].clone()))); }
                                body.push(S::Return(Some(self.int_expr(2))));
                                self.depth -= 1;
                                self.ints = saved.0; self.muts = saved.1; self.vecs = saved.2; self.lams = saved.3; self.in_loop = saved.4; self.in_fn = saved.5;
@@ -429,6 +446,10 @@ mod imp {
                     15 => { let cands: Vec<String> = self.pushable.iter().filter(|v| self.vecs.contains(v)).cloned().collect();
                             if !cands.is_empty() { let v = self.r.pick(&cands).clone();
                                return S::Expr(E::Method(Box::new(E::Var(v)), "push", vec![self.int_expr(1)])); } },
+                    16 => if !self.fns.is_empty() && !self.in_lambda { let (f, n) = self.r.pick(&self.fns).clone();
+                               // a variable that is never read, initialised by a call (the callee may print)
+                               let u = self.name("unused");
+                               return S::Let(false, u, E::Call(f, (0..n).map(|_| self.int_expr(1)).collect())); },
                     _ => if !self.fns.is_empty() { let (f, n) = self.r.pick(&self.fns).clone();
                                return S::Expr(E::Call(f, (0..n).map(|_| self.int_expr(1)).collect())); },
                 }
@@ -451,7 +472,8 @@ mod imp {
 
     /// Every syntactic position in which a family can apply its transformation (the generator must
     /// reach each of them; the counts go into the evidence).
-    pub const POSITIONS: [&str; 58] = [
+    pub const POSITIONS: [&str; 63] = [
+        "Breaks:before-comma", "Breaks:before-call-rparen", "Breaks:before-veclit-rbracket", "Breaks:before-method-rparen", "Breaks:before-print-rparen",
         "Semi:value-block-tail", "Reflow:value-block", "Reflow:stmt-block",
         "Comment:trailing:value-block-before-close", "Comment:own-line:value-block-before-close", "Blank:value-block-before-close",
         "Parens:let-init", "Parens:assign-rhs", "Parens:print-arg", "Parens:call-arg", "Parens:method-arg", "Parens:vec-elem",
@@ -523,8 +545,15 @@ mod imp {
             if let Some(site) = site { if self.fam == Fam::Breaks && self.r.chance(1, 2) {
                 self.note(format!("Breaks:{site}")); self.o.push('\n'); self.ind += 2; self.indent(); self.ind -= 2; } }
         }
-        fn close(&mut self, t: &str) { self.paren -= 1; self.o.push_str(t); }
+        fn close(&mut self, t: &str, site: Option<&'static str>) {
+            // a line break after the last argument / element, before the closing bracket
+            if let Some(site) = site { if self.fam == Fam::Breaks && self.r.chance(1, 3) {
+                self.note(format!("Breaks:{site}")); self.o.push('\n'); self.indent(); } }
+            self.paren -= 1; self.o.push_str(t);
+        }
         fn comma(&mut self, site: &'static str) {
+            // a line break before the comma (after an argument / element)
+            if self.fam == Fam::Breaks && self.r.chance(1, 6) { self.note("Breaks:before-comma".into()); self.o.push('\n'); self.ind += 2; self.indent(); self.ind -= 2; }
             self.o.push(',');
             if self.fam == Fam::Breaks && self.r.chance(1, 2) { self.note(format!("Breaks:{site}")); self.o.push('\n'); self.ind += 2; self.indent(); self.ind -= 2; }
             else { self.sp(); }
@@ -573,12 +602,15 @@ mod imp {
                 E::BitNot(a) => { self.o.push('~'); self.operand(a); }
                 E::Not(a) => { self.o.push_str("not "); self.operand(a); }
                 E::Call(f, args) => { self.o.push_str(f); self.open("(", Some("after-call-lparen"));
-                    for (i, a) in args.iter().enumerate() { if i > 0 { self.comma("after-call-comma"); } self.rv(a, "call-arg"); } self.close(")"); }
-                E::Index(a, i) => { self.rv(a, "index-base"); self.open("[", None); self.rv(i, "index-expr"); self.close("]"); }
+                    for (i, a) in args.iter().enumerate() { if i > 0 { self.comma("after-call-comma"); } self.rv(a, "call-arg"); }
+                    self.close(")", if args.is_empty() { None } else { Some("before-call-rparen") }); }
+                E::Index(a, i) => { self.rv(a, "index-base"); self.open("[", None); self.rv(i, "index-expr"); self.close("]", None); }
                 E::VecLit(k, es) => { self.o.push_str(k); self.open("[", Some("after-veclit-lbracket"));
-                    for (i, a) in es.iter().enumerate() { if i > 0 { self.comma("after-veclit-comma"); } self.rv(a, "vec-elem"); } self.close("]"); }
+                    for (i, a) in es.iter().enumerate() { if i > 0 { self.comma("after-veclit-comma"); } self.rv(a, "vec-elem"); }
+                    self.close("]", Some("before-veclit-rbracket")); }
                 E::Method(a, m, args) => { self.rv(a, "receiver"); self.o.push('.'); self.o.push_str(m); self.open("(", Some("after-method-lparen"));
-                    for (i, x) in args.iter().enumerate() { if i > 0 { self.comma("after-call-comma"); } self.rv(x, "method-arg"); } self.close(")"); }
+                    for (i, x) in args.iter().enumerate() { if i > 0 { self.comma("after-call-comma"); } self.rv(x, "method-arg"); }
+                    self.close(")", if args.is_empty() { None } else { Some("before-method-rparen") }); }
                 E::Lambda(ps, body) => { self.o.push_str("fn("); self.o.push_str(&ps.join(", ")); self.o.push_str(") "); self.block(body, "lambda-body"); }
                 E::LambdaExpr(ps, body) => { self.o.push_str("fn("); self.o.push_str(&ps.join(", ")); self.o.push_str(") "); self.rv(body, "lambda-expr-body"); }
                 E::IfExpr(c, a, b, own_line, ml) => {
@@ -618,7 +650,7 @@ mod imp {
                 S::Let(m, x, e) => { self.o.push_str("let"); self.sp(); if *m { self.o.push_str("mut"); self.sp(); } self.o.push_str(x); self.sp(); self.o.push('='); self.sp(); self.rv(e, "let-init"); }
                 S::Assign(x, op, e) => { self.o.push_str(x); self.sp(); self.o.push_str(op); self.sp(); self.rv(e, "assign-rhs"); }
                 S::Inc(x, up) => { self.o.push_str(x); self.o.push_str(if *up { "++" } else { "--" }); }
-                S::Print(ln, e) => { self.o.push_str(if *ln { "println" } else { "print" }); self.open("(", Some("after-print-lparen")); self.rv(e, "print-arg"); self.close(")"); }
+                S::Print(ln, e) => { self.o.push_str(if *ln { "println" } else { "print" }); self.open("(", Some("after-print-lparen")); self.rv(e, "print-arg"); self.close(")", Some("before-print-rparen")); }
                 S::If(c, a, b, own_line) => {
                     self.o.push_str("if"); self.sp(); self.rv(c, "if-cond"); self.sp(); self.block(a, "if-block");
                     if let Some(b) = b {
@@ -763,6 +795,60 @@ mod imp {
         }
     }
 
+    /// `Q\t<meta>\tQSeq <top> [items]\t<Some n | None>\t<text>`: statement sequences at top level or inside
+    /// `fn f() { ... }`, parsed by the real parser; observation = number of statements / rejected.
+    pub fn mode_seq(r: &mut Rng, n: usize) {
+        use aelys_syntax::StmtKind;
+        // statements that end with consume_semicolon: keyword-led ones first (index < 3)
+        const TERMS: [&str; 6] = ["let d = 1", "return 3", "break", "g(1)", "x = 2", "y++"];
+        const BLOCKS: [&str; 4] = ["while false { }", "for z in 0..1 { }", "if true { }", "fn h() { }"];
+        for case in 0..n {
+            let top = r.chance(1, 2);
+            let len = if case < 40 { case % 4 } else { r.range_i64(0, 6) as usize };
+            let kinds: Vec<u64> = (0..len).map(|_| r.below(5)).collect();       // 0..2 STerm, 3..4 SBlock
+            let mut items: Vec<&str> = Vec::new();
+            let mut text = String::from(if top { "" } else { "fn f() {" });
+            if r.chance(1, 6) { text.push_str(" ;"); items.push("SSemi"); }
+            let mut sep_pending = false;       // the last thing written is an item without separator
+            for j in 0..len {
+                text.push(' ');
+                let no_sep_before = sep_pending;
+                if kinds[j] < 3 {
+                    // after a missing separator only a keyword-led statement is written (anything else could merge into one expression)
+                    let t = if no_sep_before { TERMS[r.below(3) as usize] } else { *r.pick(&TERMS[..]) };
+                    text.push_str(t); items.push("STerm");
+                } else { text.push_str(*r.pick(&BLOCKS[..])); items.push("SBlock"); }
+                let last = j + 1 == len;
+                let sep = if last { r.below(6) } else if r.chance(1, 6) { 5 } else { r.below(5) };
+                sep_pending = false;
+                match sep {
+                    0 => { text.push(';'); items.push("SSemi"); }
+                    1 => { text.push_str(";\n  "); items.push("SSemi"); }
+                    2 => { text.push_str("\n  "); items.push("SSemi"); }
+                    3 => { text.push_str(" ;; "); items.push("SSemi"); items.push("SSemi"); }
+                    4 => { text.push_str("\n\n // c\n  ;"); items.push("SSemi"); items.push("SSemi"); }
+                    _ => { sep_pending = true; }
+                }
+            }
+            if top { if sep_pending { items.push("SSemi"); } }     // the lexer adds `;` at the end of input after a statement-ending token
+            else { text.push_str(" }\n"); }
+            let obs = {
+                let t = text.clone();
+                guarded(std::panic::AssertUnwindSafe(move || {
+                    let source = aelys_syntax::Source::new("<verif>", &t);
+                    let tokens = match Lexer::with_source(source.clone()).scan() { Ok(t) => t, Err(_) => return "None".to_string() };
+                    let stmts = match aelys_frontend::parser::Parser::new(tokens, source).parse() { Ok(s) => s, Err(_) => return "None".to_string() };
+                    if top { return format!("Some {}", stmts.len()); }
+                    match stmts.first().map(|s| &s.kind) {
+                        Some(StmtKind::Function(f)) if stmts.len() == 1 => format!("Some {}", f.body.len()),
+                        _ => "Shape".to_string(),
+                    }
+                })).unwrap_or("Panic".to_string())
+            };
+            println!("Q\t{}\tQSeq {} [{}]\t{}\t{}", case, top, items.join("; "), obs, esc(&text));
+        }
+    }
+
     fn same(a: &Outcome, b: &Outcome) -> bool {
         if a.class != b.class { return false; }
         if a.class == "compile-error" { return true; }
@@ -832,12 +918,13 @@ mod imp {
         let n = arg_u64("--n", 300) as usize;
         let budget = arg_u64("--budget", 300_000);
         let opts: Vec<u32> = arg("--opts").unwrap_or("0,2".into()).split(',').filter_map(|s| s.parse().ok()).collect();
-        let mut rng = Rng::new(seed ^ match mode.as_str() { "lex" => 0x11, "lit" => 0x22, "blk" => 0x44, _ => 0x33 });
+        let mut rng = Rng::new(seed ^ match mode.as_str() { "lex" => 0x11, "lit" => 0x22, "blk" => 0x44, "seq" => 0x55, _ => 0x33 });
         match mode.as_str() {
             "lex" => mode_lex(&mut rng, n, flag("--all-pairs")),
             "lit" => mode_lit(&mut rng, n),
             "var" => mode_var(&mut rng, n, &opts, budget, flag("--dump")),
             "blk" => mode_blk(&mut rng, n),
+            "seq" => mode_seq(&mut rng, n),
             "pairs" => mode_pairs(&arg("--file").expect("--file"), &opts, budget),
             "astfile" => {
                 let text = std::fs::read_to_string(arg("--file").expect("--file")).expect("read");
